@@ -274,18 +274,29 @@ def run_property(prop, tier, seed):
     # real code over a finite family of inputs (bounded stand-in): a failing input found there is a
     # violation with a replayable witness; finding none leaves the unit undecided (never "proved").
     fallback_violations = []
-    for (uname, r) in undecided_units:
+    ran_routines = set()
+    und_names = set(u for (u, _) in undecided_units)
+    # thorough tier: the same routines also run when every unit was extracted and proved, as an independent
+    # check of the modelling assumptions (ghost terminal, real arithmetic, std helpers) against the real code
+    targets = list(undecided_units)
+    if tier == "thorough":
+        targets += [(r.get("unit"), r) for r in results if r.get("unit") and r.get("unit") not in und_names]
+    for (uname, r) in targets:
         for (routine, rprops, what) in getattr(reg, "FALLBACK", {}).get(uname, []):
-            if prop not in rprops:
+            if prop not in rprops or routine in ran_routines:
                 continue
+            ran_routines.add(routine)
             from . import witness
-            d = witness.run_routine(routine.split()[0], routine.split()[1:])
+            d = witness.run_routine(routine.split()[0], routine.split()[1:], timeout=900)
+            drifted = uname in und_names
             fallback_runs.append({"unit": uname, "routine": routine, "what": what, "found": bool(d.get("found")),
+                                  "why": "unit undecided" if drifted else "thorough tier",
                                   "observed": d.get("clause", d.get("error", ""))})
             if d.get("found"):
                 d["replay_cmd"] = "%s %s" % (witness.BIN, d.get("rerun", "replay " + routine).split(" ", 1)[1])
-                d["note"] = "the unit could not be extracted (%s); input found by the bounded fallback on the real code" % r.get("reason", "")[:200]
-                fallback_violations.append(("%s/#bounded-fallback:%s" % (uname, routine.split()[0]), d, r, what))
+                d["note"] = ("the unit could not be extracted (%s); input found by the bounded fallback on the real code" % r.get("reason", "")[:200]) if drifted \
+                    else "input found on the real code by the bounded routine of the thorough tier although the contracts verify: a modelling assumption does not hold for this input"
+                fallback_violations.append(("%s/#bounded-%s:%s" % (uname, "fallback" if drifted else "thorough", routine.split()[0]), d, r, what))
 
     # ---------------------------------------------------------------- report
     rc = 0
